@@ -684,6 +684,36 @@ class Analysis:
                 if ct.get("returns") == "count" and ext is not None:
                     ret = self.new_sym(st, "ret_" + (name or ""), nonneg=True)
                     st.cons.append(le(ret, ext))
+                    mc = ct.get("max_count")
+                    if mc:
+                        # integer formatter: at most `digits` characters for this width and radix (the largest power of the
+                        # radix below 2^bits, which C14-T1 checks against the divisor table), and the NUL is stored whenever
+                        # the characters leave room (C14-B1).  With a window of more than `digits` bytes the text is
+                        # terminated inside it; with a smaller window some value fills it completely.
+                        bv = aval(mc["base"]) if mc.get("base") is not None and mc["base"] < len(args) else None
+                        radix = bv.k if bv is not None and bv.is_const() else mc.get("radix")
+                        if radix is None and mc.get("base") is not None and mc["base"] < len(args):
+                            radix = C.const_of(args[mc["base"]])       # a literal narrowed to the int8_t parameter
+                            bv = Lin.const(radix) if radix is not None else bv
+                        digits = {2: mc["bits"], 8: (mc["bits"] + 2) // 3, 10: len(str(2 ** mc["bits"] - 1)),
+                                  16: mc["bits"] // 4}.get(radix if radix in (2, 8, 16) else 10)
+                        if radix not in (2, 8, 10, 16) and not (bv is not None and bv.is_const()):
+                            digits = mc["bits"]            # radix unknown: the longest of all
+                        vv = aval(mc.get("val", 0)) if mc.get("val", 0) < len(args) else None
+                        if vv is not None and (radix in (2, 8, 16)) is False:
+                            # a known upper bound of the value shortens the decimal text
+                            for kk in range(1, digits):
+                                if entails(st.cons, le(vv, Lin.const(10 ** kk - 1))):
+                                    digits = kk
+                                    break
+                        digits += 1 if mc.get("sign") else 0
+                        st.cons.append(le(ret, Lin.const(digits)))
+                        if entails(st.cons, le(Lin.const(digits + 1), ext)):
+                            st.slen[d[0]] = ("le", d[1] + Lin.const(digits))
+                        else:
+                            st.slen.pop(d[0], None)
+                            st.unterminated = dict(getattr(st, "unterminated", {}))
+                            st.unterminated[d[0]] = (ext, n, digits, radix if radix in (2, 8, 16) else 10, mc.get("val", 0))
             elif self.tracked_dest(args[bi]):
                 self.unknown_dest(n, args[bi])
         elif kind == "strlen":
@@ -701,8 +731,23 @@ class Analysis:
                     wit = None
                     nw = getattr(st, "nothing_written", {}).get(d[0])
                     text = "strlen(%s): no NUL is known to lie inside the buffer" % args[0].src
-                    if nw is not None:
-                        ext, call = nw
+                    ut = getattr(st, "unterminated", {}).get(d[0])
+                    if ut is not None and nw is None:
+                        ext, call, digits, radix, vi = ut
+                        # the value argument is an unconstrained parameter (possibly cast): pick the smallest value with as
+                        # many digits as the window has bytes
+                        va = C.call_args(call)[vi].strip_all_casts() if vi < len(C.call_args(call)) else None
+                        free = va is not None and va.k == "DeclRefExpr" and va["decl"]["kind"] == "param"
+                        if free:
+                            for c in st.cons:
+                                for sname in c.syms():
+                                    if sname.split("@")[0] == va["decl"]["name"] and not \
+                                            (len(c.c) == 1 and list(c.c.values())[0] < 0 and c.k <= 0):
+                                        free = False        # anything but `value >= 0` constrains the witness
+                        if ext.is_const() and 1 <= ext.k <= digits and free:
+                            wit = {va["decl"]["name"]: radix ** (ext.k - 1)}
+                            text = ("strlen(%s) after `%s`: a value with %d digits fills the %d-byte window completely, the "
+                                    "formatter stores no NUL, and the scan runs past the buffer" % (args[0].src, call.src[:60], ext.k, ext.k))
                         goal = ext           # ext <= 0 : the formatter wrote nothing, not even a NUL
                         syms = set(goal.syms())
                         if not (syms & st.havoc) and not (syms & st.dropped):
